@@ -2,7 +2,7 @@
 #![allow(deprecated)]
 
 use crate::util::*;
-use crate::words::WORDS;
+use crate::words::{MAXWORDS, WORDS};
 use ssdeep::internal_hashes::{PartialFNVHash, RollingHash};
 
 pub const PROCFS_CANDIDATES: &[&str] =
@@ -137,6 +137,9 @@ fn gen_prim(thorough: bool, r: &mut Rng, emit: Emit) {
     }
     for w in WORDS.iter() {
         emit(&format!("prim roll {}", hexenc(&w.1)));
+    }
+    for w in MAXWORDS.iter() {
+        emit(&format!("prim roll {}", hexenc(w)));
     }
     // FNV: exhaustively all 64 states x 256 bytes, states reached by a shortest byte prefix
     let mut prefix: Vec<Option<Vec<u8>>> = vec![None; 64];
@@ -469,6 +472,36 @@ fn gen_runs(thorough: bool, r: &mut Rng, fam: &str, emit: Emit) {
     }
 }
 
+/// long raw hashes whose block hash 2 collapses to a length around the short capacity (28..36)
+fn gen_normx(thorough: bool, r: &mut Rng, emit: Emit) {
+    let n = if thorough { 6000 } else { 700 };
+    for _ in 0..n {
+        let target = r.range(28, 36) as usize;
+        let mut b2: Vec<u8> = Vec::new();
+        let mut norm_len = 0usize;
+        let mut prev = 255u8;
+        while norm_len < target && b2.len() < 64 {
+            let mut c = r.below(64) as u8;
+            if c == prev { c = (c + 1) % 64; }
+            prev = c;
+            let left = target - norm_len;
+            let run = match r.below(5) { 0 | 1 => 1, 2 => 3, 3 => r.range(4, 9) as usize, _ => r.range(1, 12) as usize };
+            let run = run.min(64 - b2.len());
+            // a final long run touching the collapsed capacity is the interesting layout
+            for _ in 0..run { b2.push(c); }
+            norm_len += run.min(3).min(left.max(1));
+        }
+        if r.chance(1, 3) { let c = *b2.last().unwrap_or(&1); while b2.len() < 64 && r.chance(2, 3) { b2.push(c); } }
+        let b1 = if r.chance(1, 2) { rand_bh(r, 64) } else {
+            // block hash 1: 61 distinct symbols followed by a run reaching the capacity
+            let mut v: Vec<u8> = (0..r.range(58, 61)).map(|i| (i % 63 + 1) as u8).collect();
+            while v.len() < 64 { v.push(0); }
+            v
+        };
+        emit(&format!("normx {} {} {}", r.below(31), hexenc(&b1), hexenc(&b2)));
+    }
+}
+
 fn gen_dual2(thorough: bool, r: &mut Rng, emit: Emit) {
     let n = if thorough { 8000 } else { 800 };
     for _ in 0..n {
@@ -729,7 +762,7 @@ fn rand_payload(r: &mut Rng, len: usize) -> Vec<u8> {
             let top = r.range(0, 30) as usize;
             while v.len() + 7 <= len {
                 let lvl = match r.below(4) { 0 => top, 1 => r.range(0, top as u64) as usize, _ => r.range(0, 6.min(top as u64)) as usize };
-                v.extend_from_slice(&word(lvl, r));
+                if r.chance(1, 12) { let mw: [u8; 7] = *r.pick(MAXWORDS); v.extend_from_slice(&mw); } else { v.extend_from_slice(&word(lvl, r)); }
                 if r.chance(1, 3) { for _ in 0..r.range(1, 5) { v.push(0); } }
             }
             v.truncate(len);
@@ -825,6 +858,16 @@ fn gen_gen(thorough: bool, r: &mut Rng, emit: Emit) {
         }
     }
     emit(&format!("gen s:{} f s:{} s:{} z:{} s:{} f", max + 1, max, max - 1, max, max + 1));
+    // the small-input warning border (4097), fed for real, through the hook and as a declared size
+    for n in [0u64, 1, 4095, 4096, 4097, 4098, 8192] {
+        let data = rand_payload(r, n as usize);
+        emit(&format!("gen u:{} f", hexenc(&data)));
+        emit(&format!("gen i:{} f s:{} f", hexenc(&data), n));
+        emit(&format!("gen z:{} f", n));
+        emit(&format!("gen s:{} f", n));
+        emit(&format!("gen s:{} pu:00:{} f", n, n));
+        emit(&format!("gen u:0102 s:{} f", n));
+    }
     // the two multi-GiB vectors of the repository's test suite
     {
         let w = hexenc(b"`]]]_CT");
@@ -841,6 +884,26 @@ fn gen_gen(thorough: bool, r: &mut Rng, emit: Emit) {
         let n = (1u64 << e) + r.below(100);
         emit(&format!("gen pu:00:{} f u:05 f", n));
         emit(&format!("gen z:{} f u:05 f", n));
+    }
+    // the `h_org == 0` early exit: a window whose rolling hash is u32::MAX, its last byte delivered
+    // by each update form, total sizes on and around block-size borders, with and without a hint
+    for w in MAXWORDS.iter() {
+        for form in ["u", "i", "b", "a", "A"] {
+            for total in [7usize, 100, 192, 193, 194, 385, 4097] {
+                let pos = r.range(0, (total - 7) as u64) as usize;
+                let mut data: Vec<u8> = (0..total).map(|_| r.below(3) as u8).collect();
+                data[pos..pos + 7].copy_from_slice(w);
+                let hint = r.chance(1, 3);
+                let mut toks: Vec<String> = vec![];
+                if hint { toks.push(format!("s:{}", total)); }
+                if pos + 6 > 0 { toks.push(format!("u:{}", hexenc(&data[..pos + 6]))); }
+                toks.push(format!("{}:{}", form, hexenc(&data[pos + 6..pos + 7])));
+                if pos + 7 < total { toks.push(format!("{}:{}", if r.chance(1, 2) { form } else { "u" }, hexenc(&data[pos + 7..]))); }
+                toks.push("f".into());
+                emit(&format!("gen {}", toks.join(" ")));
+                emit(&format!("gen {}:{} f", form, hexenc(&data)));
+            }
+        }
     }
     // 3. random histories
     let n = if thorough { 4000 } else { 500 };
@@ -1048,12 +1111,17 @@ pub fn generate(family: &str, thorough: bool, seed: u64, emit: Emit) {
         let v = h.value().wrapping_add(1);
         assert!(v != 0 && v % 3 == 0 && ((v / 3).trailing_zeros() as usize) == *lvl, "word table entry invalid");
     }
+    for w in MAXWORDS.iter() {
+        let mut h = RollingHash::new();
+        h.update(w);
+        assert!(h.value() == u32::MAX, "max-word table entry invalid");
+    }
     match family {
         "prim" => gen_prim(thorough, &mut r, emit),
         "bs" => gen_bs(thorough, &mut r, emit),
         "parse" => gen_parse(thorough, &mut r, emit),
         "fmt" => gen_fmt(thorough, &mut r, emit),
-        "norm" => gen_runs(thorough, &mut r, "norm", emit),
+        "norm" => { gen_runs(thorough, &mut r, "norm", emit); gen_normx(thorough, &mut r, emit); }
         "dual" => { gen_runs(thorough, &mut r, "dual", emit); gen_dual2(thorough, &mut r, emit); }
         "ord" => gen_ord(thorough, &mut r, emit),
         "posarr" => gen_posarr(thorough, &mut r, emit),
